@@ -66,10 +66,13 @@ func runC14(r *simrt.Run, tier Tier) Outcome {
 	facts := map[string][]c14Iv{}
 	var src strings.Builder
 	src.WriteString("Decl ev(A) temporal.\n")
+	// the fact lines are collected and written in a drawn order (the interval
+	// tree is built by insertion: oldest first, newest first, or mixed)
+	var factLines []string
 	total := 0
 	for _, n := range names {
 		pos := int64(r.Choose(6, "c14.start"))
-		k := r.Choose(4, "c14.nivs")
+		k := r.Choose(6, "c14.nivs")
 		for j := 0; j < k && pos <= 38; j++ {
 			r.Tape.Mark()
 			length := int64(r.Choose(8, "c14.len")) // 0 = point
@@ -89,19 +92,35 @@ func runC14(r *simrt.Run, tier Tier) Outcome {
 			if !clockMode && i.hi != posInf && i.lo != negInf && i.lo <= nowSec && r.OneIn(6, "c14.untilnow") {
 				i.hi = nowSec
 				facts[n] = append(facts[n], i)
-				fmt.Fprintf(&src, "ev(%s)@[%s, now].\n", n, c14TS(i.lo))
+				factLines = append(factLines, fmt.Sprintf("ev(%s)@[%s, now].\n", n, c14TS(i.lo)))
 				total++
 				r.Probe("base-fact-until-now")
 				break
 			}
 			facts[n] = append(facts[n], i)
-			fmt.Fprintf(&src, "ev(%s)%s.\n", n, i.ann())
+			factLines = append(factLines, fmt.Sprintf("ev(%s)%s.\n", n, i.ann()))
 			total++
 			if i.hi == posInf {
 				break
 			}
 			pos = i.hi + 2 + int64(r.Choose(6, "c14.gap")) // gap >= 2 s: not adjacent
 		}
+	}
+	switch r.Choose(3, "c14.factorder") {
+	case 1: // newest first
+		for i, j := 0, len(factLines)-1; i < j; i, j = i+1, j-1 {
+			factLines[i], factLines[j] = factLines[j], factLines[i]
+		}
+	case 2:
+		idx := shuffleInts(r, len(factLines), "c14.factperm")
+		sh := make([]string, len(factLines))
+		for i, j := range idx {
+			sh[i] = factLines[j]
+		}
+		factLines = sh
+	}
+	for _, l := range factLines {
+		src.WriteString(l)
 	}
 	// rules
 	type opRule struct {
@@ -149,6 +168,33 @@ func runC14(r *simrt.Run, tier Tier) Outcome {
 		src.WriteString("js(X, S) :- ev(X)@[S, E1], ew(X)@[S, E2].\n")
 		src.WriteString("je(X, E) :- ew(X)@[S1, E], ev(X)@[S2, E].\n")
 		r.Probe("shared-interval-variable")
+	}
+	// a rule that recurses through a past diamond operator: whoever met, at
+	// instant T, somebody who was infected inside the window is infected at T.
+	// Facts that first appear in a later round of the fixpoint go through the
+	// same operator as those of the first round.
+	recMode := r.OneIn(4, "c14.rec")
+	type meet struct {
+		p, q string
+		t    int64
+	}
+	var meets []meet
+	var seedT int64
+	var recD1, recD2 int64
+	if recMode {
+		src.WriteString("Decl inf(P) temporal.\nDecl met(P, Q) temporal.\n")
+		seedT = int64(r.Choose(30, "c14.rec.seed"))
+		fmt.Fprintf(&src, "inf(/p0)%s.\n", c14Iv{seedT, seedT}.ann())
+		nm := 2 + r.Choose(4, "c14.rec.nmeets")
+		for k := 0; k < nm; k++ {
+			m := meet{fmt.Sprintf("/p%d", r.Choose(4, "c14.rec.p")), fmt.Sprintf("/p%d", r.Choose(4, "c14.rec.q")), int64(r.Choose(36, "c14.rec.t"))}
+			meets = append(meets, m)
+			fmt.Fprintf(&src, "met(%s, %s)%s.\n", m.p, m.q, c14Iv{m.t, m.t}.ann())
+		}
+		recD1 = int64(r.Choose(6, "c14.rec.d1"))
+		recD2 = recD1 + int64(r.Choose(30, "c14.rec.d2"))
+		fmt.Fprintf(&src, "inf(Q)@[T] :- <-[%ds, %ds] inf(P), met(P, Q)@[T].\n", recD1, recD2)
+		r.Probe("recursion-through-operator")
 	}
 	enumRule := r.Bool("c14.enum")
 	if enumRule {
@@ -314,6 +360,41 @@ func runC14(r *simrt.Run, tier Tier) Outcome {
 		}
 		if o.d1 == o.d2 {
 			r.Probe("zero-length-window")
+		}
+	}
+	if recMode {
+		lo, hi := nowNs-recD2*int64(time.Second), nowNs-recD1*int64(time.Second)
+		infAt := map[string]map[int64]bool{"/p0": {c14Nanos(seedT): true}}
+		for changed := true; changed; {
+			changed = false
+			for _, m := range meets {
+				inWindow := false
+				for t := range infAt[m.p] {
+					if lo <= t && t <= hi {
+						inWindow = true
+					}
+				}
+				if inWindow && !infAt[m.q][c14Nanos(m.t)] {
+					if infAt[m.q] == nil {
+						infAt[m.q] = map[int64]bool{}
+					}
+					infAt[m.q][c14Nanos(m.t)] = true
+					changed = true
+				}
+			}
+		}
+		for n, ts := range infAt {
+			for t := range ts {
+				wantTemporal["inf("+n+")@"+iv{t, t}.String()] = 1
+			}
+		}
+		seen := map[string]bool{}
+		for _, m := range meets {
+			k := "met(" + m.p + ", " + m.q + ")@" + iv{c14Nanos(m.t), c14Nanos(m.t)}.String()
+			if !seen[k] {
+				seen[k] = true
+				wantTemporal[k] = 1
+			}
 		}
 	}
 	if joinMode {
